@@ -61,7 +61,7 @@ def _no_end_marker(evs):
 
 
 def check(run):
-    return syncfam.run_family(run, "C06", "wire", PFX, extra=["-what", "sender"], name="wire-sender", assumptions=ASSUME, selftests=[
+    return syncfam.run_family(run, "C06", "wire", PFX, extra=["-what", "sender"], name="wire-sender", assumptions=ASSUME, witness=True, selftests=[
         ("mark one DATA payload as not matching the file slice", _bad_slice),
         ("relabel one DATA packet with an id that was never requested", _unrequested),
         ("remove the end-of-stats marker from a successful session", _no_end_marker)])
